@@ -216,9 +216,22 @@ def danglingLast (fs : FS) (f : String) (p : Path) : Bool :=
     | none => false
     | some (g, P) => isLink (lookupE fs g (P ++ [x])) && (resolve fs f p).isNone
 
+/-- the path continues below a dangling soft link whose target is missing before its last
+component: HDF5's `H5Oexists_by_name`, called by `grouppath in f`, fails instead of answering no -/
+def throughBadSoft (fs : FS) (f : String) (p : Path) : Bool :=
+  (List.range (p.length - 1)).any fun i =>
+    match p[i]?, resolve fs f (p.take i) with
+    | some x, some (g, P) =>
+      match lookupE fs g (P ++ [x]) with
+      | some (.soft t) => t ≠ [] && (resolve fs g t.dropLast).isNone
+      | _ => false
+    | _, _ => false
+
 /-- `fileops.is_cooler` (code as it is under variant `v`) -/
 def isCooler (fs : FS) (v : Variant) (f : String) (p : Path) : Except ErrClass Bool :=
-  if v.d20 && danglingLast fs f p then .error .key else .ok (isCoolerSpec fs f p)
+  if v.d20 && danglingLast fs f p then .error .key
+  else if v.d20 && throughBadSoft fs f p then .error .runtime
+  else .ok (isCoolerSpec fs f p)
 
 /-- what `Cooler(uri)` reads with link budget `n`: the group must be recognised, its `pixels`
 child a group and `pixels/count` a dataset (links *inside* a payload are not modelled) -/
@@ -252,7 +265,7 @@ def childNames (es : Entries) (P : Path) : List String :=
 inductive Item
   | path (p : Path)      -- a recognised collection, by the name the listing gives it
   | dangling             -- a child link that does not resolve (`values()` yields None)
-  | fuel                 -- recursion budget exhausted: cyclic namespace
+  | fuel                 -- recursion budget exhausted: cyclic namespace (or a self-referential external link)
 deriving DecidableEq, Repr, Inhabited
 
 /-- `visititems`: children of the group at canonical location `(f, P)` displayed as `disp` -/
@@ -277,6 +290,9 @@ def walk (fs : FS) (v : Variant) : Nat → String → Path → Path → List Ite
               (if fmtOK a then [Item.path (disp ++ [x])] else []) ++ walk fs v n g Q (disp ++ [x])
             | _ => []
         | some (.ext g0 t) =>
+          -- an external link into the very file that holds it (only a copy of a link into its own
+          -- target file creates one): the name HDF5 reports is not modelled
+          if g0 = f then [.fuel] else
           match resolve fs g0 t with
           | none => if loops fs g0 t then [.fuel] else [.dangling]
           | some (g, Q) =>
@@ -474,6 +490,15 @@ def placeAt (fs : FS) (f : String) (dp : Path) (new : H5File → Entries × Nat)
         let (es, nx) := new h1
         linkRegion fs f h1 P x es nx exists_
 
+/-- the reason, if any, for which the model declines to place something at `dp` of file `f` -/
+def dstCorner (fs : FS) (f : String) (dp : Path) : Option String :=
+  match getFile fs f with
+  | none => none
+  | some h =>
+    match mkdirP fs f h [] dp.dropLast with
+    | .error (.corner why) => some why
+    | _ => none
+
 /-- copy of the children of the source group into the destination root, one `src.copy` per child in
 name order; stops at the first existing name (what was copied before stays) -/
 def copyChildren (hs : H5File) (S : Path) : H5File → List String → H5File × Outcome
@@ -498,6 +523,9 @@ def copyOp (fs : FS) (v : Variant) (sf : String) (sp : Path) (df : String) (dp :
     -- `h5py.File(dst_path, dst_write_mode)`: truncating a file that is already open fails
     if dstW && sf = df then (fs, .err .os) else
     let fs1 := if dstW then setFile fs df emptyFile else fs
+    match dstCorner fs1 df dp with
+    | some why => (fs1, .corner why)
+    | none =>
     if sf = df then
       if link || rename then
         -- `src[dst_group] = src[src_group]`, then `del src[src_group]`
